@@ -83,6 +83,9 @@ fn main() {
                 for (k, pat) in [("whitespace", "WHITESPACE"), ("comment", "COMMENT"), ("push", "(push "), ("pop", "(id POP"), ("peek_slice", "(peek "), ("neg", "(neg "), ("pos", "(pos "), ("rep", "(rep "), ("atomic_rule", " a ("), ("compound_rule", " c ("), ("nonatomic_rule", " x ("), ("silent_rule", " s ("), ("skip_idiom", "(rep (seq (neg "), ("bounded_rep", "(repm"), ("tag", "(tag "), ("user_builtin_name", "(rule ASCII"), ("insens", "(ins ")] { if srules.contains(pat) { *feat.entry(k).or_default() += 1; } }
                 let alpha = alphabet(&rules);
                 let mut inputs = all_inputs(&alpha[..alpha.len().min(6)], len);
+                // the idiom grammars also get every string one symbol longer over the first three symbols (their shapes need
+                // a push, a second push and two reads)
+                if gi < 60 || c05 { for x in all_inputs(&alpha[..alpha.len().min(3)], len + 1) { if x.chars().count() == len + 1 { inputs.push(x); } } }
                 // plus a few longer random strings
                 for _ in 0..20 { let n = rng.range(len + 1, len + 6); let mut s = String::new(); for _ in 0..n { s.push_str(*rng.pick(&alpha[..])); } inputs.push(s); }
                 let starts: Vec<&Rule> = rules.iter().filter(|r| r.name != "WHITESPACE" && r.name != "COMMENT").take(3).collect();
